@@ -254,7 +254,8 @@ impl Area for RegArea {
                     let mut want: BTreeMap<String, (String, String, Vec<(Vec<(String, String)>, String)>)> = BTreeMap::new();
                     for (_, c, _) in &registered { for f in c.boxed().collect() { if f.get_metric().is_empty() { continue; }
                         let e = want.entry(f.name().to_string()).or_insert((f.help().to_string(), format!("{:?}", f.get_field_type()).to_lowercase(), vec![]));
-                        for m in f.get_metric() { e.2.push((m.get_label().iter().map(|p| (p.name().to_string(), p.value().to_string())).collect(), show_sample_val(f.get_field_type(), m))); } } }
+                        // canonical form: a sample's own labels in label-name order (what makes the positional comparison of values meaningful)
+                        for m in f.get_metric() { let mut ls: Vec<(String, String)> = m.get_label().iter().map(|p| (p.name().to_string(), p.value().to_string())).collect(); ls.sort_by(|a, b| a.0.cmp(&b.0)); e.2.push((ls, show_sample_val(f.get_field_type(), m))); } } }
                     let mut cl = common.clone(); cl.sort();
                     let want_s: Vec<String> = want.iter().map(|(n, (h, t, ss))| { let mut ss = ss.clone(); ss.sort_by(|a, b| (a.0.len(), a.0.iter().map(|p| p.1.clone()).collect::<Vec<_>>()).cmp(&(b.0.len(), b.0.iter().map(|p| p.1.clone()).collect::<Vec<_>>())));
                         format!("{}^{}^{}^{}", hex_list(&[&match &prefix { Some(p) => format!("{}_{}", p, n), None => n.clone() }]), hex_list(&[h]), t, ss.iter().map(|(l, v)| { let mut l = l.clone(); l.extend(cl.iter().cloned()); format!("{}={}@0", pairs_str(&l), v) }).collect::<Vec<_>>().join(";")) }).collect();
